@@ -106,6 +106,7 @@ Section Append.
       destruct (Nat.eq_dec x id) as [->|Hx]; [fold n in Hr; congruence|].
       rewrite Hnd by exact Hx. apply (hW11 _ _ _ I x Hr).
     - (* iW12 *) intros m Hm Hty. unfold nd. rewrite Hterm'. apply (hW12 _ _ _ I m Hm Hty).
+    - (* iW13 *) apply (iW13_ext c0 c1 s s' E); [reflexivity|exact (hW13 _ _ _ I)].
     - (* iK1 *) intros x t'. change (ga' x t' <= length (LL s t')).
       destruct (Nat.eq_dec x id) as [->|Hx].
       + destruct (Nat.eq_dec t' t) as [->|Ht'].
@@ -232,7 +233,7 @@ Section AppendStep.
         * split; [exact HoK9a|left; reflexivity].
       + intros m' [<-|[]]. unfold msg_ok. cbn [reply m_type m_reject m_from m_term m_to m_index].
         split; [intros H0; discriminate H0|]. split; [intros H0; discriminate H0|]. split; [intros H0; discriminate H0|].
-        split; [|split; intros H0; discriminate H0].
+        split; [|split; [intros H0; discriminate H0|split; intros H0; discriminate H0]].
         intros _ _. cbn [ga]. rewrite upd2_same. lia.
     - destruct (maybe_append (n_log n) (n_commit n) (m_index m) (m_logterm m) (m_commit m) (m_ents m))
         as [| |L' c' lni] eqn:Ema.
@@ -273,7 +274,121 @@ Section AppendStep.
                 apply (CP_le s t (m_commit m)); [exact HCP|lia].
         * intros m' [<-|[]]. unfold msg_ok. cbn [reply m_type m_reject m_from m_term m_to m_index].
           split; [intros H0; discriminate H0|]. split; [intros H0; discriminate H0|]. split; [intros H0; discriminate H0|].
-          split; [|split; intros H0; discriminate H0].
+          split; [|split; [intros H0; discriminate H0|split; intros H0; discriminate H0]].
           intros _ _. cbn [ga]. rewrite upd2_same. lia.
   Qed.
 End AppendStep.
+
+Section SnapshotStep.
+  Variables c0 c1 : list nat.
+  Hypothesis Hcfg : c0 <> [] \/ c1 <> [].
+
+  Lemma below_all_or_ex : forall (L X : elog) idx,
+    (forall j, 1 <= j < idx -> term_at L j = term_at X j) \/
+    (exists j, 1 <= j < idx /\ term_at L j <> term_at X j).
+  Proof.
+    intros L X idx. induction idx as [|k IH]; [left; intros j Hj; lia|].
+    destruct IH as [IH|(j & Hj & Hd)]; [|right; exists j; split; [lia|exact Hd]].
+    destruct (Nat.eq_dec k 0) as [->|Hk]; [left; intros j Hj; lia|].
+    destruct (Nat.eq_dec (term_at L k) (term_at X k)) as [E|N].
+    - left. intros j Hj. destruct (Nat.eq_dec j k) as [->|Hjk]; [exact E|apply IH; lia].
+    - right. exists k. split; [lia|exact N].
+  Qed.
+
+  Lemma first_diff : forall (L X : elog) idx, term_at L idx <> term_at X idx ->
+    exists ci, 1 <= ci <= idx /\ term_at L ci <> term_at X ci /\
+               forall j, 1 <= j < ci -> term_at L j = term_at X j.
+  Proof.
+    intros L X idx. induction idx as [idx IH] using lt_wf_ind. intros Hd.
+    assert (Hpos : 1 <= idx) by (destruct idx; [exfalso; apply Hd; reflexivity|lia]).
+    destruct (below_all_or_ex L X idx) as [Hall|(j & Hj & Hdj)].
+    - exists idx. split; [lia|split; [exact Hd|exact Hall]].
+    - destruct (IH j ltac:(lia) Hdj) as (ci & Hci & Hdc & Hb). exists ci. split; [lia|split; assumption].
+  Qed.
+
+  Lemma step_snapshot : forall s id m,
+    Inv c0 c1 s ->
+    In m (msgs s) -> m_type m = MsgSnap -> m_to m = id -> m_term m = n_term (nodes s id) ->
+    n_role (nodes s id) = Follower ->
+    Inv c0 c1 (set_ga (add_msgs (set_node s id (fst (handle_snapshot id m (nodes s id))))
+                                (snd (handle_snapshot id m (nodes s id))))
+                      id (n_term (nodes s id))
+                      (Nat.max (ga s id (n_term (nodes s id))) (app_ack (snd (handle_snapshot id m (nodes s id)))))).
+  Proof.
+    intros s id m I Hm Hty Hto Htm Hr. set (n := nodes s id) in *. set (t := n_term n) in *.
+    destruct (hW13 _ _ _ I m Hm Hty) as (HXne & Hents & Hlen & Hlt & HCP). rewrite Htm in HXne, Hents, Hlen, Hlt, HCP.
+    set (X := LL s t) in *.
+    destruct (hK9 _ _ _ I id) as [HoK9a HoK9b]. unfold nd in HoK9a, HoK9b. fold n in HoK9a, HoK9b. fold t in HoK9b.
+    assert (Hshape : forall n' out,
+      set_ga (add_msgs (set_node s id n') out) id t (Nat.max (ga s id t) (app_ack out))
+      = add_msgs (mkM (upd (nodes s) id n') (msgs s) (gv s)
+                      (upd2 (ga s) id t (Nat.max (ga s id t) (app_ack out))) (LL s) (lof s)) out) by reflexivity.
+    assert (HcomX : n_commit n <= length X /\ firstn (n_commit n) (n_log n) = firstn (n_commit n) X).
+    { destruct HoK9b as [Hz|(t0 & k0 & Ht0 & Hc0 & Hk0 & Hf)]; [rewrite Hz; split; [lia|reflexivity]|].
+      destruct (LC_le c0 c1 Hcfg s I t0 k0 t Hc0 Ht0 HXne) as [Hh1 Hh2]. fold X in Hh1, Hh2.
+      split; [lia|]. rewrite Hf. symmetry. apply (firstn_agree_le _ _ _ k0); [exact Hh2|exact Hk0]. }
+    assert (Hack_ok : forall s' k, k <= ga s' id t ->
+              msg_ok c0 c1 s' (reply id MsgAppResp (m_from m) t k false)).
+    { intros s' k Hk. unfold msg_ok. cbn [reply m_type m_reject m_from m_term m_to m_index].
+      split; [intros H0; discriminate H0|]. split; [intros H0; discriminate H0|]. split; [intros H0; discriminate H0|].
+      split; [|split; [intros H0; discriminate H0|split; intros H0; discriminate H0]].
+      intros _ _. exact Hk. }
+    unfold handle_snapshot. fold n. fold t.
+    destruct (m_index m <=? n_commit n) eqn:Eic.
+    - (* at or below the commit index: acknowledge the commit index *)
+      cbn [fst snd]. rewrite Hshape. cbn [app_ack reply m_reject m_index].
+      apply inv_add_msgs.
+      + apply (inv_append_gen c0 c1 Hcfg s id n _ (n_commit n) (n_log n) (n_commit n) I); fold n; fold t; fold X;
+          try reflexivity; try assumption.
+        * left. reflexivity.
+        * destruct HcomX as [H1 H2]. split; [exact HoK9a|split; assumption].
+        * split; [exact HoK9a|left; reflexivity].
+      + intros m' [<-|[]]. apply Hack_ok. cbn [ga]. rewrite upd2_same. lia.
+    - apply Nat.leb_gt in Eic.
+      destruct (term_at (n_log n) (m_index m) =? m_logterm m) eqn:Emt.
+      + (* matchTerm: the commit index is fast-forwarded *)
+        apply Nat.eqb_eq in Emt.
+        destruct (commit_to (n_log n) (n_commit n) (m_index m)) as [c|] eqn:Ec.
+        * destruct (commit_to_spec _ _ _ _ Ec) as [[-> Hle]|(-> & Hgt & HleL)]; [lia|].
+          cbn [fst snd]. rewrite Hshape. cbn [app_ack reply m_reject m_index].
+          assert (Hagree : firstn (m_index m) (n_log n) = firstn (m_index m) X).
+          { apply (wf_match (LL s)); [apply (hW1 _ _ _ I id)|apply (hW2 _ _ _ I t)|lia|exact Hlen|]. rewrite Emt. exact Hlt. }
+          apply inv_add_msgs.
+          -- apply (inv_append_gen c0 c1 Hcfg s id (set_commit (m_index m) n) _ (m_index m) (n_log n) (m_index m) I); fold n; fold t; fold X;
+               try reflexivity; try assumption.
+             ++ left. reflexivity.
+             ++ split; [exact HleL|split; [exact Hlen|exact Hagree]].
+             ++ split; [exact HleL|right; split; [exact Hgt|split; [lia|exact HCP]]].
+          -- intros m' [<-|[]]. apply Hack_ok. cbn [ga]. rewrite upd2_same. lia.
+        * (* panic: nothing happens *)
+          cbn [fst snd]. rewrite Hshape. cbn [app_ack].
+          apply inv_add_msgs; [|intros m' []].
+          apply (inv_append_gen c0 c1 Hcfg s id n _ 0 (n_log n) (n_commit n) I); fold n; fold t; fold X;
+            try reflexivity; try assumption.
+          -- left. reflexivity.
+          -- split; [lia|split; [lia|reflexivity]].
+          -- split; [exact HoK9a|left; reflexivity].
+      + (* the log is replaced by the snapshot's prefix *)
+        apply Nat.eqb_neq in Emt. rewrite Hlt in Emt.
+        cbn [fst snd]. rewrite Hshape. cbn [app_ack reply m_reject m_index].
+        destruct (first_diff (n_log n) X (m_index m) Emt) as (ci & Hci & Hdc & Hbelow).
+        assert (Hpre : ci - 1 <= length (n_log n) /\ firstn (ci - 1) (n_log n) = firstn (ci - 1) X).
+        { destruct (Nat.eq_dec ci 1) as [->|Hc1]; [split; [cbn; lia|reflexivity]|].
+          assert (Heq : term_at (n_log n) (ci - 1) = term_at X (ci - 1)) by (apply Hbelow; lia).
+          assert (Hp : 1 <= term_at X (ci - 1)) by (apply terms_pos_term_at; [apply (hW3 _ _ _ I t)|lia]).
+          assert (Hrng : 1 <= ci - 1 <= length (n_log n)) by (apply term_at_range; lia).
+          split; [lia|]. apply (wf_match (LL s)); [apply (hW1 _ _ _ I id)|apply (hW2 _ _ _ I t)|exact Hrng|lia|exact Heq]. }
+        assert (Hcomci : n_commit n < ci).
+        { destruct (le_lt_dec ci (n_commit n)) as [Hle|Hgt]; [|exact Hgt]. exfalso. apply Hdc.
+          destruct HcomX as [_ Hx]. apply (term_at_agree _ _ (n_commit n) ci Hx Hle). }
+        assert (HlenE : length (m_ents m) = m_index m) by (rewrite Hents, firstn_length; lia).
+        apply inv_add_msgs.
+        * apply (inv_append_gen c0 c1 Hcfg s id _ _ (m_index m) (m_ents m) (m_index m) I); fold n; fold t; fold X;
+            try reflexivity; try assumption.
+          -- right. exists (m_index m). split; [exact Hents|split; [exact Hlen|]].
+             exists ci. destruct Hpre as [Hp1 Hp2]. repeat split; try assumption; lia.
+          -- split; [lia|split; [exact Hlen|]]. rewrite Hents. rewrite firstn_firstn, Nat.min_id. reflexivity.
+          -- split; [lia|right; split; [exact Eic|split; [lia|exact HCP]]].
+        * intros m' [<-|[]]. apply Hack_ok. cbn [ga]. rewrite upd2_same. lia.
+  Qed.
+End SnapshotStep.
